@@ -61,6 +61,33 @@ def cap_tables(ctx, clause):
     return obs, rows
 
 
+def cap_slot_binding(ctx, clause):
+    """Which annotate_class variant a capped tracker runs, decided by constructing it (interpreted) for several numbers of
+    target classes: the early-stop variant iff the number of target classes is known (> 0)."""
+    from ..abseval import Opaque
+    cls = ctx.p.find_class("InstanceCapMode")
+    stop = ctx.p.func(ICM + "_annotate_class_with_stop_condition")
+    nostop = ctx.p.func(ICM + "_annotate_class_with_no_stop_condition")
+    obs = []
+    for n in (-1, 0, 1, 5):
+        ev = Evaluator(ctx)
+        ev.concrete_classes = {"InstanceCapMode"}
+        ann = {"_instantiation_property": P, "_instances_dict": {}, "_instance_tracker": Opaque("tracker")}
+        init = cls.find_method("__init__")
+        kws = {"annotator_ref": ann, "internal_strategy": Opaque("inner"), "instance_limit": 3, "n_target_classes": n}
+        kws = {k: v for k, v in kws.items() if k in init.params}
+        obj = ev.new(cls, **kws)
+        got = obj.fields.get("annotate_class")
+        got_f = got[2] if isinstance(got, tuple) and len(got) == 3 and got[0] == "bound" else None
+        want = stop if n > 0 else nostop
+        ok = got_f is want
+        obs.append(Ob(clause, "R-TABLE", "R-TABLE|cap-slot-binding|n_target_classes=%d" % n, init.loc(), ok,
+                      "%d target classes -> %s" % (n, want.name) if ok else
+                      "%d target classes: expected the %s variant, the constructor binds %s" % (
+                          n, "early-stop" if n > 0 else "no-stop", got_f.name if got_f is not None else repr(got)[:60])))
+    return obs
+
+
 class _Rec(dict):
     """instances_dict[s] : records append() through the watch list."""
     def __init__(self):
@@ -196,12 +223,7 @@ def check(ctx, tier):
     obs += twin.check_pairs(ctx, "D-a", "C16")
     o_sel, r0 = ctx.attempt(selection_tables, ctx, "D-a", default=([], 0))
     obs += [o for o in o_sel if "_get_proper_strategy" in o.key]
-    slot = ctx.p.method("InstanceCapMode", "__init__")
-    bind = [n for n in walk_own(slot.node) if isinstance(n, ast.Assign) and norm(n.targets[0]) == "self.annotate_class"]
-    ok = len(bind) == 1 and norm(bind[0].value) == "self._annotate_class_with_stop_condition if n_target_classes > 0 else self._annotate_class_with_no_stop_condition"
-    obs.append(Ob("D-a", "R-TABLE", "R-TABLE|cap-slot-binding", slot.loc(), ok,
-                  "the early-stop variant is bound iff the number of target classes is known (> 0)" if ok else
-                  "slot binding changed: %s" % (norm(bind[0].value) if bind else "no binding")))
+    obs += ctx.attempt(cap_slot_binding, ctx, "D-a", default=[])
     obs += ctx.attempt(filter_placement, ctx, "D-b", default=[])
     obs += ctx.attempt(file_list_order, ctx, "D-a", default=[])
     o_fw, r3 = ctx.attempt(filter_wrap_table, ctx, "D-b", default=([], 0))
